@@ -210,6 +210,9 @@ def run(facts, rep, tier, ctx):
     c04.overlay_read_delegation(facts, rep, ws, "R19.4o")
     c09.table_u(facts, rep, ws, "R19.4o", only=("set_creation_time", "set_modification_time", "set_access_time"))
     path_setter_rules(facts, rep, ws, D, "R19.4p")
+    # what metadata reports and what the setters reach are the same entry: the overlay's resolver hands out the layer path that has the
+    # entry, and for the overlay's own root the write layer's path itself (C09 R09.3)
+    c09.resolver_rules(facts, rep, ws, "R19.4r")
     # a backend that does not override a setter reports not-supported and changes nothing: the trait's provided method builds
     # NotSupported and nothing else (shared with C12 R12.3c / C18 R18.1)
     for b_ in facts.bodies:
@@ -283,6 +286,7 @@ def run(facts, rep, tier, ctx):
         k += c04.overlay_read_delegation(facts, A, wa, "R19.4o")
         k += c09.table_u(facts, A, wa, "R19.4o", only=("set_creation_time", "set_modification_time", "set_access_time"))
         k += path_setter_rules(facts, A, wa, D, "R19.4p")
+        k += c09.resolver_rules(facts, A, wa, "R19.4r")
         mma = MemoryModel(facts, wa.memory, "AsyncFileSystem")
         over = sorted(op for op in FIELD_OF if op in mma.ops)
         if over:
